@@ -421,8 +421,18 @@ func (g *gen) mkStruct(i int) *Decl {
 		}
 	}
 	if g.hasSub && g.chance(0.05) {
-		g.c.AddFeat("embedded-sub-struct")
-		d.Fields = append(d.Fields, Field{Name: "SubStruct", T: Ref("sub", "SubStruct"), Embedded: true})
+		// not twice along two embedding paths (the deeper copy is hidden from encoding/json: its
+		// values do not survive a round trip whatever gomacro does)
+		dup := false
+		for _, f := range d.Fields {
+			if f.Name == "SubStruct" || f.Embedded && g.promotes(f.Name, "SubStruct", 0) {
+				dup = true
+			}
+		}
+		if !dup {
+			g.c.AddFeat("embedded-sub-struct")
+			d.Fields = append(d.Fields, Field{Name: "SubStruct", T: Ref("sub", "SubStruct"), Embedded: true})
+		}
 	}
 	if g.chance(0.1) {
 		g.c.AddFeat("generic-named-arg")
